@@ -1108,7 +1108,10 @@ func (r *runner) opCreate(kv map[string]string) (string, string) {
 		if cls == "known" || cls == "confirmed" {
 			r.forget(q.name)
 		}
-		if cls == "rejected" || q.notify == "fail" {
+		if m := misclassified(q.ans); m != "" {
+			viols = append(viols, m)
+		}
+		if intendedClass(q.ans) == "rejected" || q.notify == "fail" {
 			viols = append(viols, "C20 key=SendOutputs.failed-broadcast-returned-ok: the backend refused the transaction but SendOutputs returned no error")
 		}
 		reply += " pub=ok"
@@ -1141,4 +1144,50 @@ func answerClass(spec string) string {
 		return "confirmed"
 	}
 	return "rejected"
+}
+
+// intendedClass: what the backend MEANT by its answer, from the backends' own wording (bitcoind reject reasons,
+// btcd/neutrino rule-error texts) — deliberately independent of chain/errors.go, which is code under test.
+func intendedClass(spec string) string {
+	if spec == "" || spec == "ok" {
+		return "accepted"
+	}
+	if len(spec) < 2 {
+		return "rejected"
+	}
+	t := strings.ToLower(strings.ReplaceAll(strings.ReplaceAll(spec[2:], "+", " "), "-", " "))
+	has := func(s string) bool { return strings.Contains(t, s) }
+	switch spec[0] {
+	case 'b':
+		switch {
+		case has("txn already known"):
+			return "known"
+		case has("transaction already in block chain"), has("transaction outputs already in utxo set"):
+			return "confirmed"
+		case has("txn already in mempool"):
+			return "mempool"
+		}
+	case 'n':
+		switch {
+		case has("database contains entry for spent tx output"):
+			return "known"
+		case has("transaction already exists"):
+			return "confirmed"
+		case has("already have transaction"):
+			return "mempool"
+		}
+	}
+	return "rejected"
+}
+
+// misclassified reports a backend answer whose mapping by chain/errors.go changes what C20 demands.
+func misclassified(spec string) string {
+	want, real := intendedClass(spec), answerClass(spec)
+	if want == real {
+		return ""
+	}
+	if want == "mempool" || real == "mempool" || (want == "rejected") != (real == "rejected") {
+		return fmt.Sprintf("C20 key=chain-errors.misclassified.%s-as-%s: backend answer %q means %s but is handled as %s", want, real, spec, want, real)
+	}
+	return ""
 }
